@@ -21,7 +21,7 @@ FIN = 'kopf.zalando.org/KopfFinalizerMarker'
 PREFIX = 'kopf.zalando.org'
 NEVER = 1000000
 REASONS = ('create', 'update', 'delete', 'resume')
-UNIVERSE = ['a', 'b', 'c', 'd', 'r']
+UNIVERSE = ['a', 'b', 'c', 'd', 'r', 'a/x', 'a/y']       # 'a/x', 'a/y': sub-handlers of 'a' (scenario key `subs`)
 
 
 def ess_id(x: Any, on: bool) -> int:
@@ -56,9 +56,9 @@ def run_scenario(sc: dict[str, Any]) -> dict[str, Any]:
                 lh = ess_id(e.get('spec', {}).get('x'), (e.get('metadata', {}).get('labels', {}) or {}).get('on') == 'yes')
             prog = {}
             for h in UNIVERSE:
-                raw = ann.get(f'{PREFIX}/{h}')
+                raw = ann.get(f'{PREFIX}/{h.replace("/", ".")}')
                 if raw is None:
-                    raw = ann.get(f'{PREFIX}/{h}-ofDRS')       # the key of a ReplicaSet owned by a Deployment (scenario flag `drs`)
+                    raw = ann.get(f'{PREFIX}/{h.replace("/", ".")}-ofDRS')       # the key of a ReplicaSet owned by a Deployment (scenario flag `drs`)
                 if raw is None:
                     prog[h] = {'st': 'none', 'r': 0, 'pu': 'none', 'until': 0}
                 else:
@@ -82,7 +82,16 @@ def run_scenario(sc: dict[str, Any]) -> dict[str, Any]:
         # one function object per handler id, shared by all its decorators and by all incarnations
         # (scenario flag `sync`: the handlers are plain functions, run by kopf in threads of the executor - virtual threads here)
         smode = sc.get('sync', '')
-        fns = {h: sim.handler(h, hs[h]['script'], kind='change', sync=(smode == 'all' or (smode == 'mixed' and h in ('a', 'c', 'r'))))
+        subs = sc.get('subs') or {}          # parent id -> {sub id: script}: registered by the parent's function with @kopf.subhandler
+        subfns = {p_: {x: sim.handler(x, list(scr), kind='change') for x, scr in m.items()} for p_, m in subs.items()}
+
+        def registering(p_: str):
+            def extra(**_: Any) -> None:
+                for x, fn in subfns[p_].items():
+                    kopf.subhandler(id=x.split('/', 1)[1])(fn)
+            return extra
+        fns = {h: sim.handler(h, hs[h]['script'], kind='change', sync=(smode == 'all' or (smode == 'mixed' and h in ('a', 'c', 'r'))),
+                              extra=registering(h) if h in subs else None)
                for h in order}
 
         from vf import daemons as _D
@@ -213,6 +222,8 @@ def conf_of(sc: dict[str, Any]) -> dict[str, Any]:
                'retries': hs[h]['retries'], 'mode': hs[h]['errors'], 'backoff': hs[h]['backoff']} if h in hs else none)
           for h in UNIVERSE}
     conf = {'hc': hc, 'order': order, 'lifecycle': sc.get('lifecycle', 'asap'), 'ctimeout': sc.get('ctimeout', 5)}
+    if sc.get('subs'):
+        conf['subs'] = {h: (list(sc['subs'][h]) if h in sc['subs'] else []) for h in UNIVERSE}
     if sc.get('daemons'):
         conf.update(dh={hid: {'kind': 'daemon', 'backoff': c['backoff'], 'timeout': c['timeout'], 'sync': bool(c.get('sync'))}
                         for hid, c in sc['daemons'].items()}, polling=3, exitto=2)
@@ -357,7 +368,7 @@ def _tla_set(xs) -> str:
     return '{' + ', '.join(json.dumps(x) for x in xs) + '}'
 
 
-CFG = ('SPECIFICATION TSpec\nCONSTANTS\n  H = {"a", "b", "c", "d", "r"}\n  ConfSet = {}\n  Delays <- Del\n  EssVals <- Ess\n'
+CFG = ('SPECIFICATION TSpec\nCONSTANTS\n  H = {"a", "b", "c", "d", "r", "a/x", "a/y"}\n  ConfSet = {}\n  Delays <- Del\n  EssVals <- Ess\n'
        '  Foreign <- For\n  Horizon = 100000\n  Doors <- AllDoors\n'
        '  MaxEdits = 1000\n  MaxFails = 1000\n  MaxKills = 1000\n  MaxStops = 1000\n  MaxDeletes = 1000\n  MaxForeign = 1000\n'
        '  MaxToggles = 1000\n  MaxRelists = 1000\n  MaxHolds = 1000\n'
@@ -455,7 +466,7 @@ def gen_scenarios(seed: int, n: int, profile: str) -> list[dict[str, Any]]:
             if profile in ('finalizer', 'progress', 'converge', 'stealth', 'mixed'): ops += ['toggle'] * (3 if profile in ('finalizer', 'stealth', 'mixed') else 1)
             if profile in ('finalizer', 'converge', 'progress', 'mixed') and not deleted: ops += ['delete'] * 2
             if profile in ('finalizer', 'mixed'): ops += ['finadd', 'findel', 'finadd']
-            if profile in ('progress', 'converge', 'resume', 'errors'): ops += ['kill', 'stop'] if alive else ['start'] * 4
+            if profile in ('progress', 'converge', 'resume', 'errors', 'subs'): ops += ['kill', 'stop'] if alive else ['start'] * 4
             if profile == 'mixed': ops += ['stop'] if alive else ['start'] * 4
             if profile in ('resume',) and alive: ops += ['relist'] * 3
             if profile == 'consistency': ops += (['release'] * 4 if held else ['hold'] * 4) + ['fedit'] * 3
@@ -489,6 +500,13 @@ def gen_scenarios(seed: int, n: int, profile: str) -> list[dict[str, Any]]:
               'env': env, 'end': t + 80, 'tail_from': t + 60, 'profile': profile,
               'sync': 'all' if i % 5 == 3 else 'mixed' if i % 10 == 7 else '',     # synchronous (threaded) handlers
               'drs': i % 6 == 5 and profile != 'mixed'}        # every sixth history is about a ReplicaSet owned by a Deployment (marked progress keys)
+        if profile == 'subs':        # handler 'a' registers two sub-handlers whenever it runs
+            if 'a' not in hs:
+                hs['a'] = hdl(['create', 'update'], [], backoff=1); sc['handlers'] = hs; sc['order'] = ['a'] + [h for h in sc['order'] if h != 'a']
+            hs['a']['script'] = [x for x in hs['a']['script'] if x == 'ok'] if rnd.random() < 0.7 else hs['a']['script']
+            sub_script = lambda: rnd.choice([['ok'], ['ok'], [('temp', rnd.choice([1, 2, 3])), 'ok'], [('temp', 1), ('temp', 2), 'ok'], ['perm'], [('temp', 2), 'perm']])
+            sc['subs'] = {'a': {'a/x': sub_script() + sub_script(), 'a/y': sub_script() + sub_script()}}
+            sc['sync'] = ''; sc['drs'] = False
         if profile == 'mixed':       # daemons beside the change handlers on the same object
             dm: dict[str, Any] = {}
             for hid in ['d1', 'd2'][:rnd.choice([1, 1, 2])]:
